@@ -8,7 +8,8 @@ import (
 )
 
 // C06 Presence reflects live subscriptions.
-// Even indexes: call sequences on the real presenceHub (presence_memory.go).
+// Even indexes: call sequences on the real presenceHub (presence_memory.go); indexes = 8 mod 10: which
+// channels a presence tick refreshes, sequential and concurrent variant (c06TickCase).
 // Odd indexes: life-cycle schedules on the real Node/Client (shared engine); every life-cycle case
 // ends with a presence tick, so "settled" includes one periodic presence update.
 
@@ -74,6 +75,54 @@ func c06HubCase(r *rand.Rand) (string, map[string]any, string, bool) {
 	}
 	term := vApp("CPres", vList(opsCoq), vList(steps), vList(finals), vList(uids))
 	return term, map[string]any{"kind": "presenceHub", "ops": ops, "final": finalJS, "key": ""}, "presence-hub", n >= 4 && dups
+}
+
+// c06TickCase: which channels one presence tick refreshes, for the sequential (concurrency 0/1) and the
+// concurrent (clientPresenceUpdateConcurrency > 1) variant: the connection subscribes server-side to 2..5
+// channels (presence on for most), then 1..3 ticks run alone; per tick the channels of the connection's
+// AddPresence calls are recorded.  Coq side: CTick - compared with the model's tick snapshot
+// (pres_items) and judged by the oracle "every presence subscription exactly once, nothing else".
+func c06TickCase(r *rand.Rand) (string, map[string]any, string, bool) {
+	nch := 2 + r.Intn(4)
+	conc := []int{0, 1, 2, 3, 8}[r.Intn(5)]
+	fail := func(msg string) (string, map[string]any, string, bool) {
+		return vApp("CTick", vList(nil), vList([]string{vList([]string{vN(0)})})), map[string]any{"kind": "tick", "error": msg, "key": ""}, "tick-variant", false
+	}
+	e, err := c04NewEngCfg(nil, nch, c04EngCfg{TickConc: conc})
+	if err != nil {
+		return fail(err.Error())
+	}
+	defer e.shutdown()
+	c04Connect(e)
+	var subs []string
+	pres := make([]bool, nch)
+	npres := 0
+	for c := 0; c < nch; c++ {
+		pres[c] = r.Intn(100) < 75
+		if pres[c] {
+			npres++
+		}
+		e.spawn(c04Op{Kind: "subsrv", Ch: c, Opts: c04Opts{Pres: pres[c]}})
+		if !e.client.IsSubscribed(e.chs[c]) {
+			return fail("subscribe did not complete")
+		}
+		subs = append(subs, vPair(vN(uint64(c)), vBool(pres[c])))
+	}
+	e.takePresAdds()
+	var ticks []string
+	var ticksJS [][]uint64
+	for k, nt := 0, 1+r.Intn(3); k < nt; k++ {
+		e.spawn(c04Op{Kind: "tick"})
+		adds := e.takePresAdds()
+		var l []string
+		for _, c := range adds {
+			l = append(l, vN(c))
+		}
+		ticks = append(ticks, vList(l))
+		ticksJS = append(ticksJS, adds)
+	}
+	term := vApp("CTick", vList(subs), vList(ticks))
+	return term, map[string]any{"kind": "tick", "concurrency": conc, "presence": pres, "ticks": ticksJS, "key": ""}, "tick-variant", conc > 1 && npres >= 2
 }
 
 // c06Finish: release everything, then one presence tick (also released), so that the observed
@@ -181,6 +230,16 @@ func c06RunAll(w *verifW, mk func(i int, r *rand.Rand) c04Plan) {
 	pending := 0
 	for i := 0; i < w.N; i++ {
 		if !w.Want(i) {
+			continue
+		}
+		if i%10 == 8 {
+			pending++
+			sem <- struct{}{}
+			go func(i int) {
+				defer func() { <-sem; done <- struct{}{} }()
+				term, js, class, nt := c06TickCase(w.Rand(i))
+				results[i] = &out{term, js, class, nt}
+			}(i)
 			continue
 		}
 		if i%2 == 0 {
